@@ -18,6 +18,7 @@ Everything outside the subset raises `Unsupported` -> broken obligation, never a
 import ast
 import copy
 
+from harness.translate import normalize as N
 from harness.translate import py2lean as T
 from harness.translate.gen import HEADER, _parse
 
@@ -74,6 +75,7 @@ def gen_interp_kernels(ctx=None):
         raise U("_spline_kernel signature changed: %s" % got)
     ex = T.Expr({"x": T.RAT, "order": T.RAT})
     ex.falls = 0
+    fn = N.canon_guards(fn)   # `if not C: A else: B` is read as `if C: B else: A` (ordering comparisons are NOT flipped: NaN)
     body = _ret_tree(fn.body, ex, 1)
     out = [HEADER % "sigpy/interp.py"]
     out.append("/-- generated from `_spline_kernel` (`order` is passed as a float by the callers: `param[-d]`) -/\n"
@@ -198,6 +200,37 @@ def _call_kw(fn, attr):
     return c, {k.arg: k.value for k in c.keywords}
 
 
+# the spellings the committed Gen/NufftFormulas.lean was generated from: a formula that differs from its reference only by
+# the order of the operands of a `*` / `+` or by the grouping of a sum of exact ints (normalize.ac_key) is emitted in the
+# reference spelling, so the generated definition - and every theorem about it - is unchanged; any other formula is emitted
+# as written (a different definition)
+REFS = {"oversampLen": ["ceil(oversamp * i)"], "scale": ["ceil(oversamp * n) / n"], "shift": ["ceil(oversamp * n) // 2"],
+        "os_i": ["ceil(oversamp * i)"], "centre": ["i // 2"], "delta": ["m // 2"]}
+
+
+def oversamp_shape_elt(tree):
+    """`_get_oversamp_shape(shape, ndim, oversamp)`: after normalisation (an append loop over `shape[-ndim:]` read as the
+    comprehension, single-assignment temporaries inlined, the bound variable named `i`) the body must be
+    `return list(shape)[:-ndim] + [<elt> for i in shape[-ndim:]]`; returns <elt> (over `oversamp`, `i`)."""
+    fn = T.find_function(tree, "_get_oversamp_shape")
+    if [a.arg for a in fn.args.args] != ["shape", "ndim", "oversamp"] or fn.decorator_list:
+        raise U("_get_oversamp_shape signature")
+    fn, _ = N.loops_to_comps(fn)
+    fn, _ = N.inline_temps(fn)
+    body = N._nodoc(fn.body)
+    if len(body) != 1 or not isinstance(body[0], ast.Return) or not (isinstance(body[0].value, ast.BinOp) and isinstance(body[0].value.op, ast.Add)):
+        raise U("_get_oversamp_shape body: %s" % [ast.unparse(x)[:60] for x in body])
+    lhs, comp = body[0].value.left, body[0].value.right
+    if ast.unparse(lhs) not in ("list(shape)[:-ndim]", "list(shape[:-ndim])"):
+        raise U("_get_oversamp_shape batch part: %s" % ast.unparse(lhs))
+    elt, names, it = T.listcomp_elt(N.rename_comp(comp, ["i"]))
+    if ast.unparse(it) not in ("shape[-ndim:]", "list(shape)[-ndim:]", "list(shape[-ndim:])") or names != ["i"]:
+        raise U("_get_oversamp_shape comprehension over %s" % ast.unparse(it))
+    if N.loads(elt) - {"oversamp", "i", "ceil"}:
+        raise U("_get_oversamp_shape element reads %s" % sorted(N.loads(elt)))
+    return N.match_ref(elt, REFS["oversampLen"], ints=("i", ))
+
+
 def gen_nufft_formulas(ctx=None):
     tree = _parse("sigpy/fourier.py")
     out = [HEADER % "sigpy/fourier.py"]
@@ -218,18 +251,7 @@ def gen_nufft_formulas(ctx=None):
         return E(env).tr(node)
 
     # _get_oversamp_shape: list(shape)[:-ndim] + [ceil(oversamp * i) for i in shape[-ndim:]]
-    fn = T.find_function(tree, "_get_oversamp_shape")
-    if [a.arg for a in fn.args.args] != ["shape", "ndim", "oversamp"]:
-        raise U("_get_oversamp_shape signature")
-    ret = [n for n in fn.body if isinstance(n, ast.Return)]
-    if len(ret) != 1 or not (isinstance(ret[0].value, ast.BinOp) and isinstance(ret[0].value.op, ast.Add)):
-        raise U("_get_oversamp_shape body")
-    lhs, comp = ret[0].value.left, ret[0].value.right
-    if ast.unparse(lhs) != "list(shape)[:-ndim]":
-        raise U("_get_oversamp_shape batch part: %s" % ast.unparse(lhs))
-    elt, names, it = T.listcomp_elt(comp)
-    if ast.unparse(it) != "shape[-ndim:]" or names != ["i"]:
-        raise U("_get_oversamp_shape comprehension over %s" % ast.unparse(it))
+    elt = oversamp_shape_elt(tree)
     s, t = rat_or_int(elt, {"oversamp": T.RAT, "i": T.INT})
     if t != T.INT:
         raise U("oversampled length is not an int")
@@ -240,22 +262,32 @@ def gen_nufft_formulas(ctx=None):
     fn = T.find_function(tree, "_scale_coord")
     if [a.arg for a in fn.args.args] != ["coord", "shape", "oversamp"]:
         raise U("_scale_coord signature")
+    # single-assignment temporaries of the loop body (`scale`, `shift`, a shared `os_n = ceil(..)`, ..) are inlined: what is
+    # translated is the value multiplied onto / added to `output[..., i]`, however it is named on the way
+    fn, _ = N.inline_temps(fn, keep=("output", "ndim"))
     loops = [n for n in fn.body if isinstance(n, ast.For)]
-    if len(loops) != 1 or ast.unparse(loops[0].iter) != "range(-ndim, 0)" or loops[0].target.id != "i":
+    if len(loops) != 1 or loops[0].orelse or not isinstance(loops[0].target, ast.Name):
         raise U("_scale_coord loop")
+    iv = loops[0].target.id
+    if ast.unparse(T.find_assign(fn, "ndim")) != "coord.shape[-1]" or N._stores(fn, "ndim") != 1 or N._stores(fn, iv) != 1:
+        raise U("_scale_coord ndim / loop variable")
+    # any enumeration of the last ndim axes, each once: the body below touches `output[..., i]` only and reads nothing
+    # another iteration writes, so the order of the axes does not matter
+    _axes_of(loops[0].iter, "_scale_coord loop")
     body = loops[0].body
-    sub = _Subst([(lambda n: _is_sub(n, "shape", "i"), "n")])
-    vals = {}
+    sub = _Subst([(lambda n: _is_sub(n, "shape", iv), "n")])
     stmts = []
     for st in body:
-        if isinstance(st, ast.Assign) and isinstance(st.targets[0], ast.Name):
-            vals[st.targets[0].id] = sub.visit(copy.deepcopy(st.value))
-        elif isinstance(st, ast.AugAssign):
-            stmts.append((type(st.op).__name__, ast.unparse(st.target), ast.unparse(st.value)))
+        if isinstance(st, ast.AugAssign):
+            stmts.append((type(st.op).__name__, ast.unparse(st.target), sub.visit(copy.deepcopy(st.value))))
         else:
-            raise U("_scale_coord statement")
-    if stmts != [("Mult", "output[..., i]", "scale"), ("Add", "output[..., i]", "shift")]:
-        raise U("_scale_coord update sequence %s" % stmts)
+            raise U("_scale_coord statement %s" % ast.unparse(st)[:60])
+    if [x[:2] for x in stmts] != [("Mult", "output[..., %s]" % iv), ("Add", "output[..., %s]" % iv)]:
+        raise U("_scale_coord update sequence %s" % [x[:2] for x in stmts])
+    vals = {"scale": N.match_ref(stmts[0][2], REFS["scale"], ints=("n", )), "shift": N.match_ref(stmts[1][2], REFS["shift"], ints=("n", ))}
+    for k, v in vals.items():
+        if N.loads(v) - {"oversamp", "n", "ceil"}:
+            raise U("_scale_coord %s reads %s" % (k, sorted(N.loads(v))))
     # a fresh copy of the coordinates: in coord's own dtype, or in a floating dtype wide enough for integer-typed coordinates
     if ast.unparse(T.find_assign(fn, "output")) not in ("coord.copy()", "coord.astype(np.result_type(coord.dtype, np.float32))",
                                                              "coord.astype(coord.dtype if coord.dtype.kind == 'f' else np.float64)"):
@@ -278,7 +310,7 @@ def gen_nufft_formulas(ctx=None):
         raise U("_apodize signature")
     if ast.unparse(T.find_assign(fn, "i")) != "output.shape[a]":
         raise U("_apodize axis length")
-    s, t = rat_or_int(T.find_assign(fn, "os_i"), {"oversamp": T.RAT, "i": T.INT})
+    s, t = rat_or_int(N.match_ref(T.find_assign(fn, "os_i"), REFS["os_i"], ints=("i", )), {"oversamp": T.RAT, "i": T.INT})
     if t != T.INT:
         raise U("os_i not an int")
     out.append("/-- generated from `_apodize`: `os_i` -/\ndef apodOsLen (oversamp : Rat) (i : Int) : Int := %s\n" % s)
@@ -287,7 +319,7 @@ def gen_nufft_formulas(ctx=None):
            and isinstance(n.left, ast.Name) and n.left.id == "idx"]
     if len(cen) != 1:
         raise U("_apodize centre not found")
-    s, t = rat_or_int(cen[0].right, {"i": T.INT})
+    s, t = rat_or_int(N.match_ref(cen[0].right, REFS["centre"], ints=("i", )), {"i": T.INT})
     if t != T.INT:
         raise U("_apodize centre not an int")
     out.append("/-- generated from `_apodize`: the index subtracted from `idx` (apodisation centre) -/\n"
@@ -374,6 +406,17 @@ def gen_nufft_formulas(ctx=None):
     _gen_toeplitz(tree, out, E)
     out.append("end SigpyVerif.Gen\n")
     return "\n".join(out)
+
+
+def check_toeplitz(tree):
+    """the syntactic checks of `_gen_toeplitz` on their own (used by gen_c04 for the shape of the psf); raises Unsupported"""
+    class E(T.Expr):
+        def e_Call(self, e):
+            if isinstance(e.func, ast.Name) and e.func.id == "ceil" and len(e.args) == 1:
+                s, t = self.tr(e.args[0])
+                return ("(Rat.ceil %s)" % T._cast(s, t, T.RAT), T.INT)
+            return super().e_Call(e)
+    _gen_toeplitz(tree, [], E)
 
 
 # ---- InterpWrappers ---------------------------------------------------------------------------
@@ -544,7 +587,13 @@ def _wrapper(tree, fname, lean, args, table_name):
     lets, reshapes = [], []
     call = None
     result = None
-    body = [s for s in fn.body if not (isinstance(s, ast.Expr) and isinstance(s.value, ast.Constant))]
+    # calls of small private helpers of interp.py (`param = _per_axis_array(xp, param, ndim, dtype)`) are replaced by the
+    # helper's body (normalize.inline_helpers: undecorated, not recursive, an if/else tree of returns, pure arguments, no
+    # capture; anything else raises Unsupported), and `x = A if C else B` is read as the if statement
+    fn, _ = N.inline_helpers(tree, fn)
+    fn = N.canon_guards(fn)     # `if not C: A else: B` is `if C: B else: A`
+    body = N.expand_ifexp([s for s in fn.body if not (isinstance(s, ast.Expr) and isinstance(s.value, ast.Constant))],
+                          pred=lambda c: _is_call(c, "np", "isscalar"))
     for k, st in enumerate(body):
         if result is not None:
             raise U("%s: code after return" % fname)
@@ -724,24 +773,25 @@ def _defaults(fn):
     return {n: ast.unparse(d) for n, d in zip(names[len(names) - len(a.defaults):], a.defaults)}
 
 
-def _axes_of(node, what):
+def _axes_of(node, what, bound=()):
     """value of an axes expression built from `range`, `tuple`, `list`, int constants and `ndim` only, for
     ndim = 1, 2, 3: it must denote exactly the last `ndim` axes {-1, ..., -ndim} (in any order, once each)."""
     for n in ast.walk(node):
         if isinstance(n, ast.Name):
-            if n.id not in ("range", "tuple", "list", "ndim", "reversed", "sorted"):
+            if n.id not in ("range", "tuple", "list", "ndim", "reversed", "sorted") and n.id not in bound:
                 raise U("%s: name %s" % (what, n.id))
         elif isinstance(n, ast.Constant):
             if not isinstance(n.value, int) or isinstance(n.value, bool):
                 raise U("%s: constant %r" % (what, n.value))
         elif not isinstance(n, (ast.Call, ast.BinOp, ast.UnaryOp, ast.Load, ast.Add, ast.Sub, ast.Mult, ast.USub,
-                                ast.UAdd, ast.Tuple, ast.List)):
+                                ast.UAdd, ast.Tuple, ast.List)) and not (bound and isinstance(n, (ast.ListComp, ast.comprehension, ast.Store))):
             raise U("%s: %s" % (what, type(n).__name__))
     code = compile(ast.Expression(body=copy.deepcopy(node)), "<axes>", "eval")
     for nd in (1, 2, 3, 4):
         try:
-            v = list(eval(code, {"__builtins__": {}}, {"range": range, "tuple": tuple, "list": list, "ndim": nd,
-                                                         "reversed": reversed, "sorted": sorted}))
+            # (all names as globals: the element of a comprehension is evaluated in its own scope)
+            v = list(eval(code, {"__builtins__": {}, "range": range, "tuple": tuple, "list": list, "ndim": nd,
+                                 "reversed": reversed, "sorted": sorted}))
         except Exception as e:  # noqa
             raise U("%s: cannot evaluate %s (%r)" % (what, ast.unparse(node), e))
         if sorted(v) != list(range(-nd, 0)):
@@ -792,11 +842,15 @@ def _gen_toeplitz(tree, out, E):
     if not (dn.get("oversamp") == da.get("oversamp") == dt.get("oversamp") and dn.get("width") == da.get("width") == dt.get("width")
             and dn.get("oversamp") is not None and dn.get("width") is not None):
         raise U("default oversamp/width of nufft, nufft_adjoint, toeplitz_psf differ: %s %s %s" % (dn, da, dt))
+    allowed = {"xp", "ndim", "new_shape", "new_coord", "idx", "d", "psf", "fft_axes"}
+    # single-assignment temporaries the pass does not know by name (`scale = 2 ** ndim`, `half = new_shape[k] // 2`, ..) are
+    # substituted into their reads first (normalize.inline_temps: pure value, nothing it reads re-bound in between);
+    # a temporary that cannot be inlined stays and is rejected as an unknown assignment below
+    fn, _ = N.inline_temps(fn, keep=allowed | {"k"})
     stmts = _with_body(fn)
     # every statement must be one of the forms consumed below (nothing else may touch the pipeline)
     asg = _assigns(stmts, fn.name)
     others = [s for s in stmts if not (isinstance(s, ast.Assign) and len(s.targets) == 1 and isinstance(s.targets[0], ast.Name))]
-    allowed = {"xp", "ndim", "new_shape", "new_coord", "idx", "d", "psf", "fft_axes"}
     if set(asg) - allowed:
         raise U("toeplitz_psf assigns %s" % sorted(set(asg) - allowed))
     for k in ("ndim", "new_shape", "new_coord", "idx", "d"):
@@ -842,16 +896,41 @@ def _gen_toeplitz(tree, out, E):
     if ast.unparse(asg["idx"][0]) != "[slice(None)] * len(new_shape)":
         raise U("toeplitz_psf idx init: %s" % ast.unparse(asg["idx"][0]))
     loop = [s for s in others if isinstance(s, ast.For)]
-    if len(loop) != 1 or loop[0].orelse or not isinstance(loop[0].target, ast.Name) or loop[0].target.id != "k":
+    if len(loop) != 1 or loop[0].orelse or not isinstance(loop[0].target, ast.Name) or N._stores(fn, loop[0].target.id) != 1:
         raise U("toeplitz_psf delta loop")
-    _axes_of(loop[0].iter, "toeplitz_psf delta loop")
+    kv = loop[0].target.id
+
+    def axes_def(ax, before, what):
+        """an axes expression, or the name `fft_axes` assigned (once) before the statement that reads it"""
+        if isinstance(ax, ast.Name) and ax.id == "fft_axes":
+            if len(asg.get("fft_axes", [])) != 1:
+                raise U("toeplitz_psf fft_axes")
+            pos = [i for i, s in enumerate(stmts) if isinstance(s, ast.Assign) and ast.unparse(s.targets[0]) == "fft_axes"]
+            if len(pos) != 1 or pos[0] >= stmts.index(before):
+                raise U("toeplitz_psf: fft_axes read by %s before it is assigned" % what)
+            return asg["fft_axes"][0]
+        return ax
+
     if len(loop[0].body) != 1:
         raise U("toeplitz_psf delta loop body")
     st = loop[0].body[0]
-    if not (isinstance(st, ast.Assign) and len(st.targets) == 1 and ast.unparse(st.targets[0]) == "idx[k]"):
+    if not (isinstance(st, ast.Assign) and len(st.targets) == 1 and isinstance(st.targets[0], ast.Subscript)
+            and isinstance(st.targets[0].value, ast.Name) and st.targets[0].value.id == "idx"
+            and not isinstance(st.targets[0].slice, (ast.Slice, ast.Tuple))):
         raise U("toeplitz_psf delta loop body: %s" % ast.unparse(st))
-    sub = _Subst([(lambda n: _is_sub(n, "new_shape", "k"), "m")])
-    s, t = E({"m": T.INT}).tr(sub.visit(copy.deepcopy(st.value)))
+    # `for k in <iter>: idx[<a(k)>] = f(new_shape[<a(k)>])`: the axes a(k) visited must be exactly the last ndim axes
+    # (`for k in range(-1, -(ndim+1), -1): idx[k]`, `for k in range(1, ndim+1): idx[-k]`, `for k in fft_axes: idx[k]`, ..)
+    axis = st.targets[0].slice
+    it = axes_def(loop[0].iter, loop[0], "the delta loop")
+    if N.loads(axis) - {kv, "ndim"}:
+        raise U("toeplitz_psf delta loop axis %s" % ast.unparse(axis))
+    visited = ast.ListComp(elt=copy.deepcopy(axis), generators=[ast.comprehension(
+        target=ast.Name(id=kv, ctx=ast.Store()), iter=copy.deepcopy(it), ifs=[], is_async=0)])
+    _axes_of(ast.fix_missing_locations(visited), "toeplitz_psf delta loop", bound=(kv,))
+    axis_src = ast.dump(axis)
+    sub = _Subst([(lambda n: isinstance(n, ast.Subscript) and isinstance(n.value, ast.Name) and n.value.id == "new_shape"
+                   and isinstance(n.ctx, ast.Load) and ast.dump(n.slice) == axis_src, "m")])
+    s, t = E({"m": T.INT}).tr(N.match_ref(sub.visit(copy.deepcopy(st.value)), REFS["delta"], ints=("m", )))
     if t != T.INT:
         raise U("toeplitz_psf delta index is not an int")
     out.append("/-- generated from `toeplitz_psf`: `idx[k] = <this>` with `m = new_shape[k]` (position of the unit sample) -/\n"
@@ -889,11 +968,8 @@ def _gen_toeplitz(tree, out, E):
         raise U("toeplitz_psf final fft arguments: %s" % ast.unparse(call))
     if set(src) != {"input", "axes", "norm"} or src["input"] != "psf" or src["norm"] != "None":
         raise U("toeplitz_psf final fft arguments: %s (must be the unnormalised centred transform of psf)" % ast.unparse(call))
-    ax = bf["axes"]
-    if isinstance(ax, ast.Name) and ax.id == "fft_axes":
-        if len(asg.get("fft_axes", [])) != 1:
-            raise U("toeplitz_psf fft_axes")
-        ax = asg["fft_axes"][0]
+    last_psf = [s for s in stmts if isinstance(s, ast.Assign) and ast.unparse(s.targets[0]) == "psf"][-1]
+    ax = axes_def(bf["axes"], last_psf, "the final fft")
     _axes_of(ax, "toeplitz_psf fft axes")
     g = _GExpr(ints=[], scalars=[], nats=["ndim"])
     fm = g.tr(fac)
@@ -939,7 +1015,15 @@ def _gen_toeplitz(tree, out, E):
         if "backend.to_device(self.coord, device)" != ast.unparse(T.find_assign(m, "coord")):
             raise U("%s.%s coord" % (cls, meth))
     nl = T.find_function(ltree, "NUFFT._normal_linop")
+    # temporaries the pass does not know by name (`shape = psf.shape`, ..) are inlined; `return <product>` is `T = ..; return T`
+    nl, _ = N.inline_temps(nl, keep=("ndim", "psf", "fft_axes", "R", "F", "P", "T"))
     st = _with_body(nl)
+    if st and isinstance(st[-1], ast.Return) and st[-1].value is not None and not isinstance(st[-1].value, ast.Name) \
+            and N._stores(nl, "T") == 0:
+        st = st[:-1] + [ast.Assign(targets=[ast.Name(id="T", ctx=ast.Store())], value=st[-1].value, lineno=0),
+                        ast.Return(value=ast.Name(id="T", ctx=ast.Load()))]
+        for x in st[-2:]:
+            ast.fix_missing_locations(x)
     if not st or not isinstance(st[0], ast.If) or st[0].orelse:
         raise U("NUFFT._normal_linop: first statement is not the toeplitz switch")
     test = ast.unparse(st[0].test)
